@@ -1,9 +1,11 @@
 import Pxv.Driver.Body
 import Pxv.Driver.ReqData
+import Pxv.Driver.Config
 open Pxv.Driver
 
 def main (args : List String) : IO UInt32 := do
   match args with
   | ["body"] => serve Pxv.Body.handle; return 0
   | ["reqdata"] => serve Pxv.ReqData.handle; return 0
+  | ["config"] => serve Pxv.Config.handle; return 0
   | _ => IO.eprintln "usage: pxmodel <model>"; return 2
